@@ -71,6 +71,83 @@ def skeleton(body, what):
     return out
 
 
+
+CENSUS_FUNCS = ["fromDirectory", "getTemplate", "getStatic", "reload", "isContained", "readFile", "buildEntry", "getStaticEmbedded",
+                "getStaticFilesystem", "getTemplateFilesystem"]
+PATH_VARS = ["base", "candidate", "resolved", "gz", "externalDir", "file", "p", "target", "canonicalRoot"]
+MUTATORS = ["swap", "assign", "clear", "concat", "append", "replace_filename", "remove_filename", "replace_extension", "make_preferred",
+            "operator=", "operator/=", "operator+="]
+
+
+def census(body, what):
+    """EVERY token of `body` that touches the file system or could redirect a checked path, in source order:
+    `fs::x(` / `std::filesystem::x(` calls, path-typed locals (`fs::path name`), `::open(` `::openat(` `::read(` `::close(` and any
+    other global-namespace call, `ifstream`/`fopen`/`FILE`, `std::swap(`, `.swap(`, `/=`.  A mutating member function or a
+    compound assignment applied to one of the checked path variables (other than buildEntry's `gz += <suffix>`) is not a shape
+    this unit knows how to describe: TranslateError."""
+    toks = []
+    pat = re.compile(r"(?:(?:\bfs|\bstd::filesystem)::(\w+)\s*(\(|\s*[&*]?\s*\b(\w+)\s*[=;({]))"      # 1,2,3
+                     r"|(?<![\w:>.])::(\w+)\s*\("                                             # 4 global-namespace call
+                     r"|\b(std::ifstream|std::fstream|ifstream|fstream|fopen|FILE|freopen|std::swap|mmap|sendfile|O_PATH|openat|openat2)\b"  # 5
+                     r"|\.(swap)\s*\("                                                        # 6
+                     r"|(/=)")                                                                # 7
+    for m in pat.finditer(body):
+        if m.group(1):
+            if m.group(2) == "(":
+                toks.append("fs::%s()" % m.group(1))
+            else:
+                toks.append("fs::%s %s" % (m.group(1), m.group(3)))
+        elif m.group(4):
+            toks.append("::%s()" % m.group(4))
+        elif m.group(5):
+            toks.append(m.group(5))
+        elif m.group(6):
+            toks.append(".swap()")
+        else:
+            toks.append("/=")
+    mm = re.search(r"\b(%s)\s*(?:\.\s*(%s)\s*\(|(/=|\+=|-=))" % ("|".join(PATH_VARS), "|".join(re.escape(x) for x in MUTATORS)), body)
+    for mm in re.finditer(r"\b(%s)\s*(?:(?:\.|->)\s*(%s)\s*\(|(/=|\+=|-=))" % ("|".join(PATH_VARS), "|".join(re.escape(x) for x in MUTATORS)), body):
+        stmt = re.sub(r"\s+", " ", body[mm.start():body.find(";", mm.start())]).strip()
+        if what == "buildEntry" and re.fullmatch(r'gz \+= "[^"]+"', stmt):
+            continue
+        raise TranslateError("%s: a checked path variable is modified in place (`%s`): not a shape this unit can describe" % (what, stmt[:80]))
+    m2 = re.search(r"std::swap\s*\(|std::exchange\s*\(|std::move\s*\(\s*(?:%s)\s*\)" % "|".join(["base", "candidate", "resolved", "gz"]), body)
+    if m2:
+        raise TranslateError("%s: `%s…` moves/swaps a checked path variable" % (what, body[m2.start():m2.start() + 40].strip()))
+    return toks
+
+
+def lock_skeleton(body, cache, what):
+    """the critical sections of a double-checked lookup: for every brace block that starts with
+    `std::lock_guard<std::mutex> lock(_fs->mutex);` the accesses to `cache` inside it; and the accesses that are in no such block."""
+    blocks = []
+    for m in re.finditer(r"\{\s*std::lock_guard<std::mutex>\s+\w+\(\s*_fs->mutex\s*\)\s*;", body):
+        i = m.start()
+        depth = 0
+        j = i
+        while j < len(body):
+            if body[j] == "{":
+                depth += 1
+            elif body[j] == "}":
+                depth -= 1
+                if depth == 0:
+                    break
+            j += 1
+        blocks.append((i, j))
+    acc = [(m.start(), m.group(1)) for m in re.finditer(r"%s\s*(?:\.|->)\s*(\w+)\s*\(" % re.escape(cache), body)]
+    acc += [(m.start(), "operator[]") for m in re.finditer(r"%s\s*\[" % re.escape(cache), body)]
+    acc.sort()
+    if re.search(r"(unique_lock|scoped_lock|shared_lock|\.unlock\s*\(|\.lock\s*\(|try_lock)", body):
+        raise TranslateError("%s: a locking construct other than a block-scoped std::lock_guard on _fs->mutex" % what)
+    inside = [[a for p, a in acc if i < p < j] for i, j in blocks]
+    outside = [a for p, a in acc if not any(i < p < j for i, j in blocks)]
+    return blocks, inside, outside
+
+
+def work_under_lock(body, blocks, names):
+    return any(re.search(r"(?<![\w])(%s)\s*\(" % "|".join(names), body[i:j]) for i, j in blocks)
+
+
 def defn(src, name):
     """body of the DEFINITION of `name` (its parameter list mentions a std:: type; call sites never do)"""
     return cxxscan.function_body(src, name, signature_contains="std::")
@@ -108,6 +185,55 @@ def gen(repo):
     flags = [f.strip() for f in m.group(1).split("|")]
     if "O_RDONLY" not in flags or any(f in flags for f in ("O_CREAT", "O_WRONLY", "O_RDWR", "O_TRUNC", "O_PATH")):
         raise TranslateError("readFile: unexpected open flags %s" % flags)
+
+    # ---------------------------------------------------------------- readFile: the read loop (unix branch)
+    mloop = re.search(r"std::vector<char>\s+buf\(\s*(\d+)\s*\)\s*;\s*for\s*\(\s*;\s*;\s*\)\s*\{(.*?)\n\s*\}\s*return\s+data\s*;", rf, re.S)
+    if not mloop:
+        raise TranslateError("readFile: read loop `std::vector<char> buf(N); for (;;) {…} return data;` not recognised")
+    buf_size = int(mloop.group(1))
+    lp = re.sub(r"\s+", " ", mloop.group(2))
+    mrl = re.fullmatch(r" ?ssize_t n = ::read\(fd, buf\.data\(\), buf\.size\(\)\); if \(n > 0\) \{ data\.(\w+)\(buf\.data\(\), static_cast<std::size_t>\(n\)\); \} "
+                       r"else if \(n == 0\) \{ (break|continue|return std::nullopt); \} else if \(errno == (\w+)\) \{ (break|continue|return std::nullopt); \} "
+                       r"else \{ (break|continue|return std::nullopt); \} ?", lp)
+    if not mrl:
+        raise TranslateError("readFile: body of the read loop not recognised: %s" % lp[:200])
+    read_acc, read_eof, read_retry_errno, read_retry, read_err = mrl.groups()
+    if not re.search(r"if\s*\(\s*fd\s*<\s*0\s*\)\s*\{\s*return\s+std::nullopt\s*;", rf):
+        raise TranslateError("readFile: `if (fd < 0) return nullopt` not recognised")
+    # ---------------------------------------------------------------- census of file-system tokens, per function
+    cens = {}
+    for fn in CENSUS_FUNCS:
+        body = defn(src, fn) if fn not in ("reload",) else cxxscan.function_body(src, fn)
+        if fn == "readFile":
+            body = body.split("#else")[0]          # the POSIX branch is the one compiled and modelled; the other branch is pinned below
+        cens[fn] = census(body, fn)
+    rf_else = rf.split("#else")[1] if "#else" in rf else ""
+    cens["readFile#else"] = census(rf_else, "readFile#else") if rf_else else []
+    # ---------------------------------------------------------------- lock skeleton of the two caches and reload
+    def lock_facts(fn, cache, work):
+        body = defn(src, fn)
+        blocks, inside, outside = lock_skeleton(body, cache, fn)
+        if outside:
+            unguarded = True
+        else:
+            unguarded = False
+        finds = [k for k, accs in enumerate(inside) if "find" in accs]
+        ins = [(k, a) for k, accs in enumerate(inside) for a in accs if a in ("emplace", "insert", "insert_or_assign", "try_emplace", "operator[]")]
+        if len(ins) != 1 and not unguarded:
+            raise TranslateError("%s: expected exactly one insertion into %s inside a critical section, found %s" % (fn, cache, ins))
+        return {"find1": (not unguarded) and len(finds) >= 1 and "find" in inside[finds[0]],
+                "second": len(finds) >= 2,
+                "same": (not unguarded) and len(finds) >= 2 and ins and ins[0][0] == finds[-1],
+                "insert": ins[0][1] if ins else "none",
+                "work": work_under_lock(body, blocks, work),
+                "sections": [",".join(x) for x in inside], "outside": outside}
+    lk_s = lock_facts("getStaticFilesystem", "staticCache", ["buildEntry", "readFile"])
+    lk_t = lock_facts("getTemplateFilesystem", "templateCache", ["buildEntry", "readFile"])
+    rl = cxxscan.function_body(src, "reload")
+    rl_blocks, rl_in_s, rl_out_s = lock_skeleton("{" + rl + "}", "staticCache", "reload")
+    mlock = re.search(r"std::lock_guard<std::mutex>\s+\w+\(\s*_fs->mutex\s*\)\s*;", rl)
+    clears = re.findall(r"_fs->(\w+)\.clear\(\)", rl)
+    reload_locked = bool(mlock) and all(rl.find("_fs->%s.clear()" % c) > mlock.start() for c in clears)
     # ---------------------------------------------------------------- isContained
     ic = defn(src, "isContained")
     if not re.search(r"rel\s*=\s*target\.lexically_relative\(\s*base\s*\)", ic):
@@ -186,6 +312,24 @@ def gen(repo):
     t += "def getStaticEmbeddedSkel : List String := %s\n" % qs(skeleton(defn(src, "getStaticEmbedded"), "getStaticEmbedded"))
     t += "def buildEntrySkel : List String := %s\n" % qs(skeleton(be, "buildEntry"))
     t += "def isContainedSkel : List String := %s\n" % qs([re.sub(r"\s+", " ", x).strip() for x in re.findall(r"(?:rel\s*=[^;]*|return[^;]*);", ic)])
+
+    t += "/-- `readFile`: the read loop — buffer size, what is done with `n > 0` bytes, at `n == 0`, at `errno == <e>`, at other errors -/\n"
+    t += "def readBufSize : Nat := %d\n" % buf_size
+    t += "def readAccumulate : String := \"%s\"\ndef readAtEof : String := \"%s\"\ndef readRetryErrno : String := \"%s\"\ndef readAtRetryErrno : String := \"%s\"\ndef readAtError : String := \"%s\"\n" % (
+        read_acc, read_eof, read_retry_errno, read_retry, read_err)
+    t += "/-- census of EVERY file-system token per function (fs:: calls, path-typed locals, global-namespace calls, streams, swaps, `/=`) -/\n"
+    t += "def census : List (String × List String) := [%s]\n" % ", ".join('("%s", %s)' % (fn, qs(v)) for fn, v in cens.items())
+    t += "/-- lock skeleton of the double-checked caches (block-scoped `std::lock_guard` on `_fs->mutex`) and of `reload` -/\n"
+    for pre, lk, wk in (("static", lk_s, "Build"), ("template", lk_t, "Read")):
+        t += "def %sFind1UnderLock : Bool := %s\n" % (pre, "true" if lk["find1"] else "false")
+        t += "def %s%sUnderLock : Bool := %s\n" % (pre, wk, "true" if lk["work"] else "false")
+        t += "def %sHasSecondFind : Bool := %s\n" % (pre, "true" if lk["second"] else "false")
+        t += "def %sFind2EmplaceSameLock : Bool := %s\n" % (pre, "true" if lk["same"] else "false")
+        t += "def %sCacheInsert : String := \"%s\"\n" % (pre, lk["insert"])
+        t += "def %sCriticalSections : List String := %s\n" % (pre, qs(lk["sections"]))
+        t += "def %sUnguardedAccesses : List String := %s\n" % (pre, qs(lk["outside"]))
+    t += "def reloadUnderLock : Bool := %s\n" % ("true" if reload_locked else "false")
+    t += "def reloadClears : List String := %s\n" % qs(clears)
     t += "/-- `mimeForExtension`: table (extension, mime) and default -/\n"
     t += "def mimeTable : List (String × String) := [%s]\n" % ", ".join('("%s", "%s")' % (a, b) for a, b in table)
     t += "def mimeDefault : String := \"%s\"\n" % md.group(1)
